@@ -1214,6 +1214,151 @@ fn fresh_case(ch: &mut Choices<'_>, st: &mut Stats) -> CaseResult {
 }
 
 // ---------------------------------------------------------------------------
+// sub-check "lifetimes": filters compiled, executed and dropped in rotation.
+// A compiled filter owns what it matches with: which other filters exist, existed
+// before or are compiled next to it must not show in its results.  Families of
+// patterns of equal length (16..96 bytes) under every byte-string operator, so
+// that equal-size allocations are recycled and equal patterns meet under
+// different operators.
+
+const LIFE_LENGTHS: [usize; 8] = [5, 16, 24, 31, 32, 33, 48, 96];
+const LIFE_OPS: [&str; 6] = ["matches", "wildcard", "strict wildcard", "contains", "==", "!="];
+
+fn life_pattern(len: usize, variant: usize) -> String {
+    // lower-case letters only: the same text is a literal under every operator
+    let mut s: String = (0..len).map(|i| (b'a' + ((i * 7 + len) % 26) as u8) as char).collect();
+    if variant > 0 {
+        let at = (variant * 5) % len;
+        s.replace_range(at..at + 1, ["q", "z", "k"][variant % 3]);
+    }
+    s
+}
+
+fn life_expected(op: &str, pattern: &[u8], value: &[u8]) -> bool {
+    match op {
+        "matches" | "contains" => eval::naive_contains(value, pattern),
+        "wildcard" => value.eq_ignore_ascii_case(pattern),
+        "strict wildcard" | "==" => value == pattern,
+        _ => value != pattern,
+    }
+}
+
+fn lifetimes_case(ch: &mut Choices<'_>, st: &mut Stats) -> CaseResult {
+    // the key is a vector of raw words (see `key_of`), read proportionally
+    let raw = drain(ch);
+    let ch = &mut Choices::new(&raw);
+    let len = *ch.pick(&LIFE_LENGTHS);
+    let nvar = ch.range(2, 4);
+    let threads = *ch.pick(&[1usize, 1, 2, 4, 8]);
+    let nops = ch.range(60, 240);
+    let patterns: Vec<String> = (0..nvar).map(|v| life_pattern(len, v)).collect();
+    // values: each pattern, its upper-case form, embedded, and a near miss
+    let mut values: Vec<Vec<u8>> = Vec::new();
+    for p in &patterns {
+        values.push(p.as_bytes().to_vec());
+        values.push(p.to_uppercase().into_bytes());
+        values.push(format!("xx{p}yy").into_bytes());
+        let mut near = p.as_bytes().to_vec();
+        near[len / 2] = b'_';
+        values.push(near);
+    }
+    let mut texts: Vec<(String, &'static str, usize)> = Vec::new();
+    for (pi, p) in patterns.iter().enumerate() {
+        for op in LIFE_OPS {
+            texts.push((format!("s {op} \"{p}\""), op, pi));
+        }
+    }
+    let recipe = Recipe { fields: vec![FieldSpec { name: "s".into(), ty: MType::Bytes, optional: false }], nil_ne: true, funcs: vec![], concat: false, lists: vec![] };
+    let scheme = recipe.build();
+    let ecs: Vec<ExecutionContext<'static>> =
+        values.iter().map(|v| recipe.make_ctx(&scheme, &MCtx { vals: vec![Some(MVal::Bytes(v.clone()))] }, &ListState::new())).collect();
+    // per-thread op scripts: (kind, slot, text, value)
+    let scripts: Vec<Vec<(u8, usize, usize, usize)>> = (0..threads)
+        .map(|_| (0..nops).map(|_| (ch.weighted(&[3, 5, 2]) as u8, ch.draw(6), ch.draw(texts.len()), ch.draw(values.len()))).collect())
+        .collect();
+    let show = |extra: Value| {
+        json!({
+            "scheme": "s: Bytes", "pattern_length": len, "patterns": patterns, "threads": threads,
+            "operations_per_thread": nops, "what": "slots of compiled filters; op = compile into slot (dropping its filter) / execute slot / drop slot",
+            "failure": extra,
+        })
+    };
+    let barrier = Barrier::new(threads);
+    let failure: Mutex<Option<Value>> = Mutex::new(None);
+    let evals = AtomicUsize::new(0);
+    let recycled = AtomicUsize::new(0);
+    let _permit = acquire_cores(threads);
+    std::thread::scope(|sc| {
+        for (t, script) in scripts.iter().enumerate() {
+            let (scheme, texts, values, patterns, ecs, barrier, failure, evals, recycled) = (&scheme, &texts, &values, &patterns, &ecs, &barrier, &failure, &evals, &recycled);
+            sc.spawn(move || {
+                crate::engine::quiet_panics();
+                let mut slots: Vec<Option<(Filter, usize)>> = (0..6).map(|_| None).collect();
+                let mut history: Vec<String> = Vec::new();
+                barrier.wait();
+                for (kind, slot, ti, vi) in script {
+                    match kind {
+                        0 => {
+                            let (text, _, _) = &texts[*ti];
+                            let compiled = catch(|| scheme.parse(text).map(|a| a.compile()).map_err(|e| e.to_string()));
+                            match compiled {
+                                Ok(Ok(f)) => {
+                                    if slots[*slot].is_some() {
+                                        recycled.fetch_add(1, Ordering::Relaxed);
+                                    }
+                                    history.push(format!("slot {slot} := compile({text})"));
+                                    slots[*slot] = Some((f, *ti));
+                                }
+                                other => {
+                                    *failure.lock().unwrap() = Some(json!({"sig": "compile-failed", "thread": t, "filter": text, "outcome": format!("{other:?}")}));
+                                    return;
+                                }
+                            }
+                        }
+                        1 => {
+                            if let Some((f, ti)) = &slots[*slot] {
+                                let (text, op, pi) = &texts[*ti];
+                                let want = life_expected(op, patterns[*pi].as_bytes(), &values[*vi]);
+                                let (code, detail) = exec(f, &ecs[*vi]);
+                                evals.fetch_add(1, Ordering::Relaxed);
+                                if code != want as u8 {
+                                    let tail: Vec<&String> = history.iter().rev().take(12).collect();
+                                    *failure.lock().unwrap() = Some(json!({
+                                        "sig": "result-depends-on-other-filters", "thread": t, "filter": text, "value": show_bytes(&values[*vi]),
+                                        "engine": code_name(code), "detail": detail, "reference": want, "this_thread_before_(latest_first)": tail,
+                                    }));
+                                    return;
+                                }
+                            }
+                        }
+                        _ => {
+                            if slots[*slot].take().is_some() {
+                                history.push(format!("drop slot {slot}"));
+                            }
+                        }
+                    }
+                    if failure.lock().unwrap().is_some() {
+                        return;
+                    }
+                }
+            });
+        }
+    });
+    st.evals_n(evals.load(Ordering::Relaxed) as u64);
+    if let Some(f) = failure.into_inner().unwrap() {
+        let sig = f["sig"].as_str().unwrap_or("lifetimes").to_string();
+        return Err(Fail::new(sig, "a filter's result differs from the reference while other filters are compiled / dropped around it".to_string(), show(f)));
+    }
+    st.class(&format!("lifetimes:threads-{threads}"));
+    st.class(&format!("lifetimes:pattern-length-{len}"));
+    if recycled.load(Ordering::Relaxed) >= 10 {
+        st.nontrivial(&(len, nvar, threads, &scripts));
+    }
+    st.sample("lifetimes", || show(Value::Null));
+    Ok(())
+}
+
+// ---------------------------------------------------------------------------
 
 fn splitmix(s: &mut u64) -> u64 {
     *s = s.wrapping_add(0x9E37_79B9_7F4A_7C15);
@@ -1234,6 +1379,7 @@ pub fn subs() -> Vec<Sub> {
         Sub { name: "sets", f: Box::new(|ch, st| set_case(QUICK, ch, st)) },
         Sub { name: "sets-deep", f: Box::new(|ch, st| set_case(DEEP, ch, st)) },
         Sub { name: "fresh", f: Box::new(fresh_case) },
+        Sub { name: "lifetimes", f: Box::new(lifetimes_case) },
     ]
 }
 
@@ -1242,6 +1388,7 @@ pub fn run(run: &Run) {
         "sets: one generated scheme with 19 template filters (2 regex, 2 multi-byte contains, in {..} over Int/Ip/Bytes incl. two sets sharing a field, 2 in $list, wildcard, 3 map-each, plain and mapped function calls, 2 xor chains re-using those comparisons) + generator-made compositions (GenCfg::full, depth 3) x generated contexts and list contents; \
          sequential baseline per (filter, context) checked against the reference evaluator, re-executed twice in two orders and once on a recompilation; then T = 2, 4, 16, 64 threads released by a Barrier, each executing every pair `rounds` times (a quarter of that with 64 threads; half as walks over all filters in a per-thread rotated order = different filters in flight together; half as bursts handed out by a shared ticket counter that gives the same filter to the T threads asking next = the same filter in flight in several threads; bursts of filters without regex / function call repeat the contexts 8 times more often) - 3 of 4 threads on the shared Arc<Filter>, every 4th on its own recompilation made after the release, every 4th on its own clone_with(()) copies of the contexts, the others on the shared &ExecutionContext; every result must equal the baseline; \
          fresh: a smaller set handed (as its choice vector) to 3 fresh child processes (one with WIREFILTER_USE_AVX2=0) in which 16 threads released by a barrier first compile+execute their own copies (racing the first read of the SIMD latch and the first regex executions of the process), then race the first executions of freshly compiled shared filters; every thread's result vector must equal the parent's sequential digest; \
+         lifetimes: on 1/2/4/8 threads, 60..240 steps each over 6 slots - compile one of (2..4 equal-length patterns of 5..96 bytes) x (matches, wildcard, strict wildcard, contains, ==, !=) into a slot (dropping its filter), execute a slot on one of the patterns / their upper-case forms / embeddings / near misses, drop a slot - every result compared with the reference (the same text under different operators, equal-size allocations recycled, lifetimes overlapping across threads); \
          non-trivial (sets) = in a phase with >= 4 threads the in-flight counter of some shared filter reached >= 2, the set contains >= 1 regex and >= 1 multi-byte contains and the SIMD implementation is active in this process; (fresh) = a child process whose set contains both; distinct by (filter texts, contexts)",
     );
     run.assume("generated search cannot choose thread schedules: this is stress exploration of the schedules that happen to occur on this machine (barrier-released threads, rotated walks and same-filter bursts, phases of concurrently running cases share the cores so that a phase's threads really run in parallel), not a proof over all interleavings; a one-in-10^9 interleaving will not be found");
@@ -1260,12 +1407,14 @@ pub fn run(run: &Run) {
             run.enumerate("sets", 24, &move |i| key_of(seed, 1, i, 6000), &*find_sub(&subs, "sets").unwrap().f);
             run.note("wall_sets_s", json!(run.started.elapsed().as_secs_f64()));
             run.enumerate("fresh", 20, &move |i| key_of(seed, 3, i, 4000), &*find_sub(&subs, "fresh").unwrap().f);
+            run.enumerate("lifetimes", 1500, &move |i| key_of(seed, 4, i, 8000), &*find_sub(&subs, "lifetimes").unwrap().f);
         }
         Tier::Thorough => {
             run.note("rounds_per_thread_count", json!(DEEP.rounds));
             run.enumerate("sets", 64, &move |i| key_of(seed, 1, i, 6000), &*find_sub(&subs, "sets").unwrap().f);
             run.enumerate("sets-deep", 128, &move |i| key_of(seed, 2, i, 9000), &*find_sub(&subs, "sets-deep").unwrap().f);
             run.enumerate("fresh", 200, &move |i| key_of(seed, 3, i, 4000), &*find_sub(&subs, "fresh").unwrap().f);
+            run.enumerate("lifetimes", 20_000, &move |i| key_of(seed, 4, i, 8000), &*find_sub(&subs, "lifetimes").unwrap().f);
         }
     }
 }
